@@ -43,7 +43,7 @@ def trace_variant(desc, tier):
         return True
     if desc["part"] == "runs":
         return {"n": 300}
-    if desc.get("prelude"):
+    if desc.get("prelude") or desc.get("opts"):
         return False
     return {"depth": desc["depth"] - 1}
 
@@ -59,6 +59,9 @@ def tasks(tier, seed):
             for prelude in PRELUDES[1:]:
                 ts.append({"part": "inc", "v": vi, "first": first, "depth": dinc - 1, "prelude": prelude, "name": "inc/%s/%d/%d" % (prelude, vi, first)})
             ts.append({"part": "burst", "v": vi, "first": first, "depth": dburst, "name": "burst/%d/%d" % (vi, first)})
+            # per-fragment delivery (fire_cont_frame=True) and / or validation off: the ping rule does not depend on the delivery options
+            for opts in ("fire", "skip", "fire+skip"):
+                ts.append({"part": "inc", "v": vi, "first": first, "depth": dinc - 1, "opts": opts, "name": "inc/%s/%d/%d" % (opts, vi, first)})
         ts.append({"part": "lengths", "v": vi, "name": "lengths/%d" % vi})
         for where in RUN_WHERE:
             ts.append({"part": "runs", "v": vi, "n": 1030 if tier == "quick" else 66000, "where": where, "name": "runs/%d/%s" % (vi, where)})
@@ -127,7 +130,13 @@ class IncHarness:
         lib.reset_globals()
         env.install_urandom("counter")
         prelude = d.get("prelude", "fresh")
-        ws, sock = env.prepared_ws(prelude)
+        opts = d.get("opts") or ""
+        kw = {}
+        if "fire" in opts:
+            kw["fire_cont_frame"] = True
+        if "skip" in opts:
+            kw["skip_utf8_validation"] = True
+        ws, sock = env.prepared_ws(prelude, **kw)
         seq = R.Sequencer()
         frames = []
         hist = [] if prelude == "fresh" else ["<%s>" % prelude]
